@@ -47,12 +47,19 @@ def obs_class(v):
 
 
 def run_part(ctx, thorough):
+    import time
+    t0 = time.time()
+    marks = []
+
+    def mark(name):
+        marks.append("%s %.0fs" % (name, time.time() - t0))
     tlc.stage(ctx)
     # (1) exhaustive: every peerstore mix x CONNECT content x own addresses x connection table, 2 connection events
     cfg = tlc.subst_cfg("C12_HolePunchMC.cfg", {"EnvBudget": 3 if thorough else 2})
     r1 = tlc.run(ctx, "C12_HolePunchMC", "gen_hp_mc.cfg", cfg_text=cfg, workers=4, timeout=900, name="hpmc")
     if not r1.ok:
         raise MachineryError("design-level failure in C12_HolePunch: %s\n%s" % (r1.violated, r1.out[-1500:]))
+    mark("mc")
     # (2) the instance whose whole graph is printed and replayed
     rep = [("INIT Init", "INIT MCInit"), ("VIEW View", "VIEW View\nACTION_CONSTRAINT EmitEdge")]
     if not thorough:
@@ -73,10 +80,11 @@ def run_part(ctx, thorough):
     for need in NEED + ("ret-ok", "connect-none", "connect-client", "connect-server"):
         if not kinds.get(need):
             raise MachineryError("vacuous C12_HolePunch graph: no %s transition among %d" % (need, g.n_edges()))
-    walks = g.covering_walks(seed=ctx.seed, max_len=40)
+    walks = g.covering_walks(seed=ctx.seed, max_len=80)
     beh = ctx.sub("beh-hp")
     graph.write_behaviours(os.path.join(beh, "holepunch.jsonl"), walks,
                            {"edges": g.n_edges(), "states": g.n_states(), "seed": ctx.seed})
+    mark("graph")
     # (3) replay on the real service; ledgers recorded for every k-th walk
     every = 1 if thorough else 4
     res = goenv.run_harness(ctx, PKG, "^TestVerifC12HolePunchReplay$", inputs=beh, timeout=1500,
@@ -84,6 +92,7 @@ def run_part(ctx, thorough):
     div = classify_mismatches(ctx, res, "holepunch")
     if not res["mismatches"] and res["steps"] < g.n_edges():
         raise MachineryError("hole-punch replay executed %d steps for %d transitions" % (res["steps"], g.n_edges()))
+    mark("replay")
     # (4) code -> spec: TLC validates the recorded ledgers against the observable-level spec
     traces = []
     for p in res.get("traces") or []:
@@ -108,7 +117,8 @@ def run_part(ctx, thorough):
                "coordination streams that rode a direct connection (initiator side, refused by a real responder): %d steps"
                % (r1.distinct, r1.generated, 3 if thorough else 2, g.n_edges(), len(walks), res["steps"], acc, len(rej),
                   classes, div, extra.get("stream-over-direct", 0)))
-    log("C12hp: " + summary)
+    mark("traces")
+    log("C12hp: " + summary + " [" + ", ".join(marks) + "]")
     return {"summary": summary, "states": r1.distinct, "transitions": r1.generated, "replayed": res["replayed"] + acc,
             "samples": (res.get("samples") or [])[:2]}
 
